@@ -13,7 +13,7 @@ ASSUMPTIONS = ["documented modelling assumptions are excluded as the property sa
 
 FEATURES = {"calls": True, "create": True, "static": True, "symbolic_target": True, "value_in_static": False}
 CFGS = [{}, {"loop": 3}, {"loop": 1}, {"solver_timeout_branching": 0}, {"solver_timeout_branching": 1000},
-        {"storage_layout": "generic"}]
+        {"storage_layout": "generic"}, {"symbolic_storage": True}, {"symbolic_storage": True, "storage_layout": "generic"}]
 
 
 def gen_symjump(rng):
